@@ -570,7 +570,7 @@ def reject_case(ctx):
         n2[pickd] = 1
         cell = cell * n / n2
         n = n2
-    else:
+    elif how == "other_dims":
         # the same corners and cells, but other names for the directions
         names = spec.dim_names
         dims2 = [d + "2" for d in names] if (spec.nd == 1 or rng.random() < 0.5) \
